@@ -807,22 +807,22 @@ Lemma timer_progress_pacing_refuted_lemma :
     fst (frun false f0 (stale_loop ptod v)) = [RUnit; RSent SNone; RTimer (Some v)] /\
     forall n, spin false n (stale_loop ptod v) f0 = f0.
 Proof.
-  exists stale_history, 300, 1010, 11. cbv zeta.
+  exists stale_history, 601, 60200, 202. cbv zeta.
   split; [eexists; eexists; split; [reflexivity|reflexivity]|].
   split; [reflexivity|]. split; [reflexivity|]. split; [reflexivity|].
   split; [repeat constructor|]. split; [reflexivity|]. split; [reflexivity|].
-  assert (Hfix : snd (frun false (snd (fstep false (snd (frun false (full_init false) stale_history)) (FGetTimer 300))) (stale_loop 300 11))
-                 = snd (fstep false (snd (frun false (full_init false) stale_history)) (FGetTimer 300))) by (vm_compute; reflexivity).
+  assert (Hfix : snd (frun false (snd (fstep false (snd (frun false (full_init false) stale_history)) (FGetTimer 601))) (stale_loop 601 202))
+                 = snd (fstep false (snd (frun false (full_init false) stale_history)) (FGetTimer 601))) by (vm_compute; reflexivity).
   induction n as [|n IH]; [reflexivity|]. cbn [spin]. rewrite Hfix. exact IH.
 Qed.
 
 (* with the reset of docs/C09-fix-1.patch the same history does not spin: after one round _pacing_at is None *)
 Lemma stale_history_fixed :
   let f := snd (frun true (full_init false) stale_history) in
-  let f0 := snd (fstep true f (FGetTimer 300)) in
-  timer_src 300 1010 f = (11, SrcPacing) /\
-  f_pacing (snd (frun true f0 (stale_loop 300 11))) = None /\
-  fst (frun true f0 (stale_loop 300 11)) = [RUnit; RSent SNone; RTimer (Some 300)].
+  let f0 := snd (fstep true f (FGetTimer 601)) in
+  timer_src 601 60200 f = (202, SrcPacing) /\
+  f_pacing (snd (frun true f0 (stale_loop 601 202))) = None /\
+  fst (frun true f0 (stale_loop 601 202)) = [RUnit; RSent SNone; RTimer (Some 601)].
 Proof. vm_compute. repeat split; reflexivity. Qed.
 
 (* ================= 6. statements over reachable states ================= *)
